@@ -7,7 +7,7 @@ PROP = "C01"
 HARNESS = "c01_codec"
 RULE = ("(a) document engine: a registry of 78 codec entry points (message, presence, generic IQ, data form, stanza error, stream features, 40 IQ "
         "payload classes, 7 message payload elements, 31 nonzas incl. SASL/SASL2/bind2/FAST/stream management/STARTTLS) is applied to a "
-        "corpus of 751 seed documents (XML literals harvested from tests/ plus hand-written nonza seeds); for every (seed, admitting codec): "
+        "corpus of 762 seed documents (XML literals harvested from tests/ plus hand-written nonza seeds); for every (seed, admitting codec): "
         "D1 = serialize(parse(seed)) must be admitted by the same codec and be a fixpoint of parse+serialize up to sibling order; then the "
         "k=1 mutation closure of D1 is enumerated: every attribute and leaf text is probed with 'zzz' -- sites that keep it are free-text "
         "sites and are driven through the text alphabet {markup that would inject an element, all five metacharacters, 2/3/4-byte UTF-8, "
